@@ -267,20 +267,25 @@ inductive VisitResult where
   | ok (st : St) (step : StepRef) (exit : Option (Option Nat))
   | tapeErr (why : Nat)
 
-def visitNode (st : St) (r : Nat) (nodeIdx : Nat) (node : Node) (vc : VisitChoice) : VisitResult :=
-  -- step := run.CreateStep(node)
+/-- `step := run.CreateStep(node)` -/
+def createStep (st : St) (r nodeIdx : Nat) : St × StepRef :=
   let stepIdx := ((st.s.runs[r]?).map (·.path.length)).getD 0
-  let step : StepRef := ⟨r, stepIdx⟩
-  let st := { st with s := modifyRun st.s r fun x => { x with path := x.path ++ [⟨nodeIdx, none⟩] } }
-  -- trigger.InitializeRun, then the actions, each logging through `logEvent`
-  let st := logEvents st r (some step) vc.events
-  let st := match vc.pushed with
-    | some p => { st with s := { st.s with pushed := some p } }
-    | none => st
+  ({ st with s := modifyRun st.s r fun x => { x with path := x.path ++ [⟨nodeIdx, none⟩] } }, ⟨r, stepIdx⟩)
+
+/-- the last `session.PushFlow` made by the node's actions, if any -/
+def setPushedOpt (st : St) (p : Option Pushed) : St :=
+  match p with
+  | some p => { st with s := { st.s with pushed := some p } }
+  | none => st
+
+/-- `visitNode` after the actions have run and logged their events -/
+def visitTail (st : St) (r : Nat) (node : Node) (step : StepRef) (vc : VisitChoice) : VisitResult :=
   match vc.res with
   | .goErr => .goErr st
   | .initErr => .ok st step none
-  | .failed => .ok { st with s := exitRun st.s r .failed } step none
+  | .failed =>
+    -- the run was failed by an action: a flow pushed earlier on this node is dropped
+    .ok { st with s := { exitRun st.s r .failed with pushed := none } } step none
   | .done =>
     if st.s.pushed.isSome then .ok st step none
     else
@@ -293,6 +298,12 @@ def visitNode (st : St) (r : Nat) (nodeIdx : Nat) (node : Node) (vc : VisitChoic
         | .goErr st => .goErr st
         | .ok st e => .ok st step e
         | .tapeErr w => .tapeErr w
+
+def visitNode (st : St) (r : Nat) (nodeIdx : Nat) (node : Node) (vc : VisitChoice) : VisitResult :=
+  let cs := createStep st r nodeIdx
+  -- trigger.InitializeRun, then the actions, each logging through `logEvent`
+  let st := setPushedOpt (logEvents cs.1 r (some cs.2) vc.events) vc.pushed
+  visitTail st r node cs.2 vc
 
 /-! ### `findResumeExit` -/
 
@@ -329,76 +340,81 @@ deriving Repr, Inhabited
 def exitAll (s : Session) : Session :=
   { s with runs := s.runs.map fun x => { x with status := .completed, exited := true } }
 
+/-- first third of an iteration: "start by picking a destination node..." -/
+def pickDest (a : Assets) (l : Loop) : Loop × Option Nat :=
+  match l.st.s.pushed with
+  | some p =>
+    -- a new flow has been pushed: (terminal ⇒ every run is exited as completed), create a run for it
+    let s := if p.terminal then exitAll l.st.s else l.st.s
+    let newIdx := s.runs.length
+    let s := { s with runs := s.runs ++ [⟨p.flow, l.cur, .active, false, [], []⟩], pushed := none }
+    let dest := match getFlow a p.flow with
+      | some f => if f.nodes.isEmpty then none else some 0
+      | none => none
+    ({ l with st := { l.st with s := s }, cur := some newIdx, step := none }, dest)
+  | none =>
+    match l.exit with
+    | some d => ({ l with exit := none }, d)
+    | none => (l, none)
+
+def endStatus (s : Session) (cur : Nat) : SessStatus :=
+  if runStatus s cur = some .failed then .failed else .completed
+
+/-- second third: no destination - the current run is done; resume the parent or end the session -/
+def noDest (a : Assets) (orc : Oracle) (l : Loop) (cur : Nat) : Sum Loop Result :=
+  -- if currentRun.ExitedOn() == nil { currentRun.Exit(completed) }
+  let s := if ((l.st.s.runs[cur]?).map (·.exited)).getD true then l.st.s else exitRun l.st.s cur .completed
+  let l := { l with st := { l.st with s := s } }
+  match (s.runs[cur]?).bind (·.parent) with
+  | some p =>
+    if runStatus s p = some .active then
+      let child := cur
+      -- step, _, _ = currentRun.PathLocation()
+      let l := { l with cur := some p, step := (pathLocation a s p).map Prod.fst }
+      if runStatus s child ≠ some .failed then
+        if (getFlow a (((s.runs[p]?).map (·.flow)).getD 0)).isNone then
+          .inl { l with st := failRun l.st p none }
+        else
+          match findResumeExit a orc l.st p with
+          | .err st => .inl { l with st := failRun st p none, exit := none }
+          | .ok st e => .inl { l with st := st, exit := e }
+          | .tapeErr w => .inr (.tapeErr w)
+      else
+        .inl { l with st := failRun l.st p l.step }
+    else
+      .inr (.ok { l.st with s := { s with status := endStatus s cur } })
+  | none =>
+    .inr (.ok { l.st with s := { s with status := endStatus s cur } })
+
+/-- last third: go to the destination -/
+def goDest (a : Assets) (o : Opts) (orc : Oracle) (l : Loop) (cur d : Nat) : Sum Loop Result :=
+  let n := l.n + 1
+  let l := { l with n := n }
+  if n > o.maxSteps then
+    .inl { l with st := failRun l.st cur l.step }
+  else
+    let flow := ((l.st.s.runs[cur]?).map (·.flow)).getD 0
+    match getNode a flow d with
+    | none => .inr (.goErr l.st)
+    | some node =>
+      let stepIdx := ((l.st.s.runs[cur]?).map (·.path.length)).getD 0
+      match orc.visit cur stepIdx with
+      | some vc =>
+        match visitNode l.st cur d node vc with
+        | .goErr st => .inr (.goErr st)
+        | .tapeErr w => .inr (.tapeErr w)
+        | .ok st step e =>
+          if st.s.status = .waiting then .inr (.ok st)
+          else .inl { l with st := st, step := some step, exit := e }
+      | none => .inr (.tapeErr 33)
+
 /-- one iteration of the loop; `Sum.inl` = continue, `Sum.inr` = return -/
 def iter (a : Assets) (o : Opts) (orc : Oracle) (l : Loop) : Sum Loop Result :=
-  -- start by picking a destination node...
-  let (l, dest) : Loop × Option Nat :=
-    match l.st.s.pushed with
-    | some p =>
-      let s := if p.terminal then exitAll l.st.s else l.st.s
-      let newIdx := s.runs.length
-      let s := { s with runs := s.runs ++ [⟨p.flow, l.cur, .active, false, [], []⟩], pushed := none }
-      let dest := match getFlow a p.flow with
-        | some f => if f.nodes.isEmpty then none else some 0
-        | none => none
-      ({ l with st := { l.st with s := s }, cur := some newIdx }, dest)
-    | none =>
-      match l.exit with
-      | some d => ({ l with exit := none }, d)
-      | none => (l, none)
-  match dest with
-  | none =>
-    match l.cur with
-    | none => .inr (.tapeErr 31)
-    | some cur =>
-      -- if currentRun.ExitedOn() == nil { currentRun.Exit(completed) }
-      let s := if ((l.st.s.runs[cur]?).map (·.exited)).getD true then l.st.s else exitRun l.st.s cur .completed
-      let l := { l with st := { l.st with s := s } }
-      let parent := ((s.runs[cur]?).bind (·.parent))
-      match parent with
-      | some p =>
-        if runStatus s p = some .active then
-          let child := cur
-          let l := { l with cur := some p }
-          if runStatus s child ≠ some .failed then
-            if (getFlow a (((s.runs[p]?).map (·.flow)).getD 0)).isNone then
-              .inl { l with st := failRun l.st p none }
-            else
-              match findResumeExit a orc l.st p with
-              | .err st => .inl { l with st := failRun st p none, exit := none }
-              | .ok st e => .inl { l with st := st, exit := e }
-              | .tapeErr w => .inr (.tapeErr w)
-          else
-            -- a *local* `step` from PathLocation; the loop variable is not assigned
-            let ls := (pathLocation a s p).map (·.1)
-            .inl { l with st := failRun l.st p ls }
-        else
-          .inr (.ok { l.st with s := { s with status := if runStatus s cur = some .failed then .failed else .completed } })
-      | none =>
-        .inr (.ok { l.st with s := { s with status := if runStatus s cur = some .failed then .failed else .completed } })
-  | some d =>
-    match l.cur with
-    | none => .inr (.tapeErr 32)
-    | some cur =>
-      let n := l.n + 1
-      let l := { l with n := n }
-      if n > o.maxSteps then
-        .inl { l with st := failRun l.st cur l.step }
-      else
-        let flow := ((l.st.s.runs[cur]?).map (·.flow)).getD 0
-        match getNode a flow d with
-        | none => .inr (.goErr l.st)
-        | some node =>
-          let stepIdx := ((l.st.s.runs[cur]?).map (·.path.length)).getD 0
-          match orc.visit cur stepIdx with
-          | some vc =>
-            match visitNode l.st cur d node vc with
-            | .goErr st => .inr (.goErr st)
-            | .tapeErr w => .inr (.tapeErr w)
-            | .ok st step e =>
-              if st.s.status = .waiting then .inr (.ok st)
-              else .inl { l with st := st, step := some step, exit := e }
-          | none => .inr (.tapeErr 33)
+  let ld := pickDest a l
+  match ld.1.cur, ld.2 with
+  | none, _ => .inr (.tapeErr 31)
+  | some cur, none => noDest a orc ld.1 cur
+  | some cur, some d => goDest a o orc ld.1 cur d
 
 def loop (a : Assets) (o : Opts) (orc : Oracle) : Nat → Loop → Result
   | 0, _ => .outOfFuel
